@@ -38,7 +38,7 @@ ASSUME = ASSUME + [locks.ASSUME]
 
 
 def run(tier, seed):
-    return V.standard_check(PROP, SPEC, COMPS, LEVEL, ASSUME, tier, seed, pre=locks.with_locks())
+    return V.standard_check(PROP, SPEC, COMPS, LEVEL, ASSUME, tier, seed, pre=locks.with_locks(), post=RACE)
 
 
 def replay(path):
